@@ -15,6 +15,7 @@ def run(cmd, cwd, timeout=3000):
 
 def main():
     ID, k, props = sys.argv[1], sys.argv[2], sys.argv[3]
+    flags = sys.argv[4] if len(sys.argv) > 4 else ''      # extra cargo flags for the demonstration (e.g. --release --features checks)
     src = '/tmp/mut/%s/out/m%s' % (ID, k)
     wt = '/tmp/confirm/wt-%s-m%s' % (ID, k)
     os.makedirs('/tmp/confirm', exist_ok=True)
@@ -23,12 +24,12 @@ def main():
     meta = dict(id='%s-m%s' % (ID, k), property=ID, source='sub-agent given only the property text and a scratch worktree')
     try:
         shutil.copy(os.path.join(src, 'demo.rs'), os.path.join(wt, 'tests', 'seed_demo.rs'))
-        rc0, out0 = run('cargo test --offline --test seed_demo', wt)
+        rc0, out0 = run('cargo test --offline %s --test seed_demo' % flags, wt)
         meta['demo_without_change'] = 'pass' if rc0 == 0 else 'FAIL'
         rc, out = run(['git', 'apply', os.path.join(src, 'patch.diff')], wt)
         if rc != 0:
             print('patch does not apply', out); meta['error'] = 'patch does not apply'; print(json.dumps(meta)); return 1
-        rc1, out1 = run('cargo test --offline --test seed_demo', wt)
+        rc1, out1 = run('cargo test --offline %s --test seed_demo' % flags, wt)
         meta['demo_with_change'] = 'fail' if rc1 != 0 else 'PASS (not a demonstration)'
         os.remove(os.path.join(wt, 'tests', 'seed_demo.rs'))
         rc2, out2 = run('cargo test --workspace --no-fail-fast --offline', wt)
@@ -50,7 +51,7 @@ def main():
     meta['checks'] = {p: dict(exit=v.get('exit'), reported=[l for l in v.get('lines', [])][:3]) for p, v in res.items()} if isinstance(res, dict) else res
     meta['caught_by'] = [p for p, v in res.items() if isinstance(v, dict) and v.get('exit') == 1]
     meta['what_it_needs'] = open(os.path.join(src, 'notes.md')).read()[:1500] if os.path.exists(os.path.join(src, 'notes.md')) else ''
-    meta['ran'] = ['cargo test --offline --test seed_demo (without / with the change)', 'cargo test --workspace --no-fail-fast --offline (with the change)',
+    meta['ran'] = ['cargo test --offline %s --test seed_demo (without / with the change)' % flags, 'cargo test --workspace --no-fail-fast --offline (with the change)',
                    'tools/seedtest.py patch.diff ' + props]
     print(r.stdout[-1500:])
     if ok:
